@@ -1,8 +1,13 @@
 #!/bin/sh
-# try_seed.sh <seed-name> : applies seeded/<name>/patch.diff to /repo, runs the property's quick check, reverts.
+# try_seed.sh <seed-name> : applies seeded/<name>/patch.diff to a scratch worktree of /repo (never to /repo itself),
+# runs the property's quick check against it (VERIF_REPO), removes the patch again.
+# NOTE: the run rewrites evidence/<ID>.json; re-run ./check <ID> quick on /repo afterwards.
 s="$1"; id=${s%-*}
+wt=/tmp/seedtry-repo
 cd /verif
-git -C /repo apply /verif/seeded/$s/patch.diff || { echo "$s: patch does not apply"; exit 3; }
-./check $id quick > /tmp/try_$s.log 2>&1; rc=$?
-git -C /repo checkout -- .
+[ -d $wt ] || git -C /repo worktree add --detach $wt HEAD >/dev/null 2>&1 || exit 3
+git -C $wt checkout -q --detach $(git -C /repo rev-parse HEAD) && git -C $wt checkout -- . 
+git -C $wt apply /verif/seeded/$s/patch.diff || { echo "$s: patch does not apply"; exit 3; }
+VERIF_REPO=$wt ./check $id quick > /tmp/try_$s.log 2>&1; rc=$?
+git -C $wt checkout -- .
 echo "$s check_exit=$rc $(grep -m1 -A1 VIOLATION /tmp/try_$s.log | tr '\n' ' ' | cut -c1-300)"
